@@ -5,4 +5,5 @@ pub mod core;
 pub mod tt;
 pub mod walk;
 pub mod enumerate;
+pub mod jsonread;
 pub mod props;
